@@ -204,3 +204,123 @@ Proof.
     rewrite nth_error_app2; rewrite firstn_length_le by exact Hle; [|lia].
     now rewrite Nat.sub_diag, H.
 Qed.
+
+(* ------------------------------------------------------------------ known finding F16 *)
+(* The property reads "paths that name a field"; in protobuf-go a field is named, in text
+   form, by fd.TextName(): the field name, except for group-like fields (GroupKind whose name
+   is the lower-cased message name), which are named by their message name.  (isGroupLike
+   also demands that the group message is declared in the same file and scope; that is
+   outside this schema model.)  numValidPaths instead treats EVERY GroupKind field like a
+   proto2 group, so an editions DELIMITED field that is not group-like cannot be named. *)
+Definition msg_name_of (sc : schema) (r : nat) : list byte :=
+  match nth_error sc r with Some m => m_name m | None => [] end.
+Definition group_like (sc : schema) (f : field) : bool :=
+  match f_kind f with KGroup r => bytes_eqb (lower (msg_name_of sc r)) (f_name f) | _ => false end.
+Definition text_name (sc : schema) (f : field) : list byte :=
+  match f_kind f with
+  | KGroup r => if group_like sc f then msg_name_of sc r else f_name f
+  | _ => f_name f
+  end.
+Definition names_text (sc : schema) (md : nat) (seg : list byte) (fd : field) : Prop :=
+  exists m, nth_error sc md = Some m /\ In fd (m_fields m) /\ text_name sc fd = seg.
+
+Theorem valid_paths_text_name_refuted :
+  exists sc root p fd, names_text sc root p fd /\ nodot p /\ path_valid sc root p = false.
+Proof.
+  set (fx := {| f_name := ["x"%byte]; f_kind := KGroup 1; f_rep := false |}).
+  exists [ {| m_name := ["M"%byte]; m_fields := [fx] |}; {| m_name := ["G"%byte]; m_fields := [] |} ], 0%nat, ["x"%byte], fx.
+  split; [|split].
+  - eexists. split; [reflexivity|]. split; [now left | reflexivity].
+  - intros [H|[]]. discriminate H.
+  - reflexivity.
+Qed.
+
+Lemma by_name_some fs n f : by_name fs n = Some f -> In f fs /\ f_name f = n.
+Proof.
+  induction fs as [|g t IH]; cbn [by_name]; [discriminate|].
+  destruct (bytes_eqb (f_name g) n) eqn:E.
+  - intros H; inversion H; subst. split; [now left | now apply bytes_eqb_true].
+  - intros H. destruct (IH H). split; [now right | assumption].
+Qed.
+Lemma by_name_none fs n f : by_name fs n = None -> In f fs -> f_name f <> n.
+Proof.
+  induction fs as [|g t IH]; cbn [by_name]; [intros _ []|].
+  destruct (bytes_eqb (f_name g) n) eqn:E; [discriminate|].
+  intros H [->|Hin]; [|now apply IH].
+  intros C. apply bytes_eqb_true in C. congruence.
+Qed.
+Lemma by_name_unique fs f : NoDup (map f_name fs) -> In f fs -> by_name fs (f_name f) = Some f.
+Proof.
+  induction fs as [|g t IH]; [intros _ []|]. cbn [map by_name]. intros ND Hin. inversion ND; subst.
+  destruct (bytes_eqb (f_name g) (f_name f)) eqn:E.
+  - apply bytes_eqb_true in E. destruct Hin as [->|Hin]; [reflexivity|].
+    exfalso. apply H1. rewrite E. now apply in_map.
+  - destruct Hin as [->|Hin]; [|now apply IH].
+    assert (bytes_eqb (f_name f) (f_name f) = true) by now apply bytes_eqb_true. congruence.
+Qed.
+
+Lemma lower_byte_idem b : lower_byte (lower_byte b) = lower_byte b.
+Proof. destruct b; reflexivity. Qed.
+Lemma lower_idem s : lower (lower s) = lower s.
+Proof. unfold lower. rewrite map_map. apply map_ext. apply lower_byte_idem. Qed.
+
+Lemma nodup_map_inj {A B} (f : A -> B) l x y : NoDup (map f l) -> In x l -> In y l -> f x = f y -> x = y.
+Proof.
+  induction l as [|a t IH]; [intros _ []|]. cbn [map]. intros ND Hx Hy E. inversion ND; subst.
+  destruct Hx as [->|Hx], Hy as [->|Hy]; auto.
+  - exfalso. apply H1. rewrite E. now apply in_map.
+  - exfalso. apply H1. rewrite <- E. now apply in_map.
+Qed.
+
+(* outside the F16 class (every GroupKind field is group-like) the code's rule is exactly
+   "the segment is the text-format name of a field of the message" *)
+Theorem names_text_except_F16 sc md seg fd :
+  (forall m f, In m sc -> In f (m_fields m) ->
+     match f_kind f with KGroup r => group_like sc f = true /\ r < length sc | _ => True end)%nat ->
+  (forall m, In m sc -> NoDup (map f_name (m_fields m)) /\ NoDup (map (text_name sc) (m_fields m))) ->
+  (names sc md seg fd <-> names_text sc md seg fd).
+Proof.
+  intros GL ND. unfold names, names_text. split.
+  - intros [m [Em H]]. exists m. split; [exact Em|].
+    pose proof (nth_error_In _ _ Em) as Hm.
+    destruct H as [[B G]|[Bn [L [r [K M]]]]].
+    + destruct (by_name_some _ _ _ B) as [Hin Hn]. split; [exact Hin|].
+      unfold text_name. destruct (f_kind fd) eqn:K; auto.
+      specialize (GL m fd Hm Hin). rewrite K in GL. destruct GL as [GLf _]. rewrite GLf.
+      specialize (G _ eq_refl). unfold msg_name_is in G. unfold msg_name_of.
+      destruct (nth_error sc ref); [now apply bytes_eqb_true | discriminate].
+    + destruct (by_name_some _ _ _ L) as [Hin Hn]. split; [exact Hin|].
+      unfold text_name. rewrite K.
+      specialize (GL m fd Hm Hin). rewrite K in GL. destruct GL as [GLf _]. rewrite GLf.
+      unfold msg_name_is in M. unfold msg_name_of.
+      destruct (nth_error sc r); [now apply bytes_eqb_true | discriminate].
+  - intros [m [Em [Hin T]]]. exists m. split; [exact Em|].
+    pose proof (nth_error_In _ _ Em) as Hm. destruct (ND m Hm) as [ND1 ND2].
+    pose proof (GL m fd Hm Hin) as GLfd.
+    unfold text_name in T. destruct (f_kind fd) eqn:K.
+    + left. subst seg. split; [now apply by_name_unique|]. intros r C. discriminate C.
+    + left. subst seg. split; [now apply by_name_unique|]. intros r C. discriminate C.
+    + destruct GLfd as [GLf Hr]. rewrite GLf in T.
+      assert (msg_name_is sc ref seg = true) as MN.
+      { unfold msg_name_is. unfold msg_name_of in T. destruct (nth_error sc ref) eqn:En.
+        - now apply bytes_eqb_true.
+        - apply nth_error_None in En. lia. }
+      assert (f_name fd = lower seg) as Hn.
+      { unfold group_like in GLf. rewrite K in GLf. apply bytes_eqb_true in GLf. now rewrite <- T. }
+      destruct (by_name (m_fields m) seg) as [g|] eqn:B.
+      * left. destruct (by_name_some _ _ _ B) as [Hg Hgn].
+        assert (g = fd) as ->.
+        { pose proof (GL m g Hm Hg) as GLg. destruct (f_kind g) eqn:Kg.
+          - (* g scalar named seg = text name of fd *)
+            apply (nodup_map_inj (text_name sc) (m_fields m)); auto.
+            unfold text_name at 1. rewrite Kg, Hgn. unfold text_name. now rewrite K, GLf.
+          - apply (nodup_map_inj (text_name sc) (m_fields m)); auto.
+            unfold text_name at 1. rewrite Kg, Hgn. unfold text_name. now rewrite K, GLf.
+          - destruct GLg as [GLg _]. unfold group_like in GLg. rewrite Kg in GLg. apply bytes_eqb_true in GLg.
+            apply (nodup_map_inj f_name (m_fields m)); auto.
+            rewrite Hn, Hgn. rewrite <- Hgn, <- GLg. symmetry. apply lower_idem. }
+        split; [reflexivity|]. intros r C. try rewrite K in C. inversion C; subst. exact MN.
+      * right. split; [reflexivity|]. split.
+        -- rewrite <- Hn. now apply by_name_unique.
+        -- exists ref. auto.
+Qed.
